@@ -1241,6 +1241,12 @@ func doWalk(cs *connState, ref *fidRef, names []string, getattr bool) (qids []QI
 
 	// validate anything since this is always permitted.
 	if len(names) == 0 {
+		if ref.xattrOf != nil {
+			// The fidRef of an xattr fid is not part of the path tree (no
+			// parent, not registered under a name): a clone of it would own
+			// a File that is never told about renames. Not supported.
+			return nil, nil, AttrMask{}, Attr{}, linux.EINVAL
+		}
 		var sf File // Temporary.
 		// The clone is a Walk (and possibly GetAttr) on ref's own File, so
 		// it is ref's own path node that has to be locked for reading. That
